@@ -160,8 +160,17 @@ def check_cover(R: Run, key: str, case, src_shape, dst_shape, px, py, r, eps, si
         iy, ix = np.argwhere(miss_dst)[0]
         what = (f"{int(miss_dst.sum())} checked dst pixels dropped, e.g. (row {rows[iy]}, col {cols[ix]}) maps to src "
                 f"({px[iy, ix]:.6f}, {py[iy, ix]:.6f}) inside the source {src_shape} but is outside roi_dst={r.roi_dst}")
-    R.oracle(not miss_dst.any(), key + "-dst-pixel-dropped", case, what, sig=sig + "|dst-covers",
-             trivial=not inside.any())
+    kdst = key + "-dst-pixel-dropped"
+    if miss_dst.any() and key == "xcrs":
+        # curved edges: the 16-sample envelope is only sub-pixel accurate.  Class "sliver": every dropped pixel is in the
+        # row/column directly outside roi_dst AND its source location is within a quarter pixel of the source border
+        ii, jj = np.nonzero(miss_dst)
+        depth = max(yd.start - rows[ii].min(), rows[ii].max() - yd.stop + 1, xd.start - cols[jj].min(), cols[jj].max() - xd.stop + 1)
+        margin = np.minimum(np.minimum(px[miss_dst], snx - px[miss_dst]), np.minimum(py[miss_dst], sny - py[miss_dst])).max()
+        if depth <= 1 and margin <= 0.25 and yd.stop > yd.start and xd.stop > xd.start:
+            kdst = "xcrs-curved-edge-sliver-dropped"
+            what += f" (sliver: at most {margin:.4f} px inside the source border)"
+    R.oracle(not miss_dst.any(), kdst, case, what, sig=sig + "|dst-covers", trivial=not inside.any())
     what = ""
     if miss_src.any():
         iy, ix = np.argwhere(miss_src)[0]
@@ -922,6 +931,12 @@ def cross_crs(R: Run, O, gb):
         elif anyin is False:
             R.oracle(r.read_shrink == 1 and r.scale == 0, "xcrs-empty-scale", case, f"{r.read_shrink} {r.scale}",
                      sig="xcrs|empty", trivial=True)
+
+    # ---------------- corpus: curved source edge between boundary samples (known finding, own key)
+    one_case(LAEA_A, "EPSG:3857",
+             ((243, 436), Affine(3766.1889092199294, 0.0, 3704698.1302037463, 0.0, -10559.601883503692, 4296214.5262683)),
+             ((381, 135), Affine(25424.821971303223, 0.0, -283748.52998290444, 0.0, -14796.826976711234, 9298944.42478392)),
+             0, None, "corpus")
 
     # ---------------- small / wide rasters inside the areas of use
     n = R.pick(200, 2000)
